@@ -1060,6 +1060,8 @@ struct Anchors {
     loops: Vec<(usize /*body open*/, Option<usize> /*for: expr start*/)>,
     closures: Vec<(usize /*head start*/, usize /*body start*/, usize /*body end*/, bool /*block*/)>,
     stmts: Vec<(usize, usize)>,
+    /// nested `fn` items declared inside the body (source order): start of their block
+    innerfns: Vec<usize>,
 }
 impl<'ast> Visit<'ast> for Anchors {
     fn visit_expr(&mut self, e: &'ast Expr) {
@@ -1078,6 +1080,9 @@ impl<'ast> Visit<'ast> for Anchors {
     fn visit_stmt(&mut self, s: &'ast Stmt) {
         let r = br(s);
         self.stmts.push((r.start, r.end));
+        if let Stmt::Item(syn::Item::Fn(f)) = s {
+            self.innerfns.push(br(&*f.block).start);
+        }
         visit::visit_stmt(self, s);
     }
 }
@@ -1097,6 +1102,8 @@ pub struct FnSpec {
     pub loops: Vec<(usize, String)>,
     pub forghost: Vec<(usize, String)>,
     pub closures: Vec<(usize, Option<String>, String)>,
+    /// //@innerfn N: requires/ensures of the N-th nested `fn` item of the body (R7)
+    pub innerfns: Vec<(usize, String)>,
     pub anchors: Vec<(bool /*before*/, usize, String, String)>,
     pub external: bool,
     pub nocanary: bool,
@@ -1443,12 +1450,19 @@ impl<'a> Ctx<'a> {
                     edits.push(ins(*be, " }".into()));
                 }
             }
+<<<<<<< HEAD
             if !fs.hide.is_empty() {
                 // hide (fuel 0) ghost definitions this function's proof never needs to unfold (ghost only; a Verus
                 // function header: it must be the first thing in the body; it can only remove facts from the context)
                 let r: Vec<String> = fs.hide.iter().map(|x| format!("hide({x});")).collect();
                 self.cnt.bump("R7_hint");
                 edits.push(ins(block.start + 1, format!("\n        {}", r.join(" "))));
+=======
+            for (n, s) in &fs.innerfns {
+                let Some(at) = an.innerfns.get(*n) else { return Err(format!("lost anchor: {} has no nested fn #{n}", fs.path)) };
+                self.cnt.bump("R7_innerfn");
+                edits.push(ins(*at, format!("\n{}\n        ", s.trim_end())));
+>>>>>>> w-defargs
             }
             if !fs.open.is_empty() {
                 // reveal opaque ghost definitions for this function's proof (ghost only)
@@ -1716,6 +1730,7 @@ impl<'a> Gen<'a> {
                             Spec,
                             Loop(usize),
                             Closure(usize),
+                            InnerFn(usize),
                             Anchor(usize),
                             Tail,
                             Head,
@@ -1795,6 +1810,11 @@ impl<'a> Gen<'a> {
                                         fs.closures.push((n, sig, String::new()));
                                         cur = Cur::Closure(fs.closures.len() - 1);
                                     }
+                                    "innerfn" => {
+                                        let n: usize = ps.get(1).and_then(|x| x.parse().ok()).ok_or("//@innerfn N")?;
+                                        fs.innerfns.push((n, String::new()));
+                                        cur = Cur::InnerFn(fs.innerfns.len() - 1);
+                                    }
                                     c @ ("before" | "after") => {
                                         let n: usize = ps.get(1).and_then(|x| x.parse().ok()).ok_or("//@before N anchor")?;
                                         let rest = d.trim_start();
@@ -1811,6 +1831,7 @@ impl<'a> Gen<'a> {
                                     Cur::Spec => Some(&mut fs.spec),
                                     Cur::Loop(k) => Some(&mut fs.loops[k].1),
                                     Cur::Closure(k) => Some(&mut fs.closures[k].2),
+                                    Cur::InnerFn(k) => Some(&mut fs.innerfns[k].1),
                                     Cur::Anchor(k) => Some(&mut fs.anchors[k].3),
                                     Cur::Tail => fs.tail.as_mut(),
                                     Cur::Head => fs.head.as_mut(),
